@@ -26,7 +26,7 @@ PROPS["C14"] = {
             "consts": {"quick": {"MaxDim": 3, "MaxCount": 8, "Depth": 2},
                        "thorough": {"MaxDim": 4, "MaxCount": 16, "Depth": 2}},
             "workers": 8}],
-    "record": [{"group": "reshape", "trace_module": "Trace_C14"}],
+    "record": [{"group": "reshape", "trace_module": "Trace_C14", "require": {"other_activity_as_meant": 12}}],
     "assumptions": COMMON_ASSUMPTIONS + ["contents are element identities 1..n (reshape never inspects values)"],
 }
 
@@ -46,7 +46,7 @@ PROPS["C15"] = {
             "consts": {"quick": {"MaxDim": 3, "Depth": 1, "Seeds": "{1, 2}"},
                        "thorough": {"MaxDim": 3, "Depth": 2, "Seeds": "{1, 2}"}},
             "workers": 8}],
-    "record": [{"group": "arith", "trace_module": "Trace_C15"}],
+    "record": [{"group": "arith", "trace_module": "Trace_C15", "require": {"other_activity_as_meant": 15}}],
     "assumptions": COMMON_ASSUMPTIONS + ["float mode: the harness's own `a op b` in f32 is the IEEE single-precision result"],
 }
 
